@@ -34,8 +34,9 @@ RULE = ("cell = (class in {RBF, squared-exponential, heteroscedastic exp / cosh-
         "of the feature bumps (RBF: 1 at the centre; SE: 1 on w'x + w0 = 0) from the documented "
         "formula; non-trivial: all; distinct = cell tuple")
 
-DIMS_Q = [(1, 1, 1, 1), (1, 2, 2, 2), (2, 1, 1, 2), (2, 2, 2, 3)]  # Dx, Dy, Dk, Da
-DIMS_T = DIMS_Q + [(1, 3, 2, 3), (2, 3, 3, 3), (3, 2, 2, 2), (1, 1, 3, 3), (3, 1, 1, 1), (2, 2, 1, 2)]
+DIMS_Q = [(1, 1, 1, 1), (1, 2, 2, 2), (2, 1, 1, 2), (2, 2, 2, 3), (1, 2, 4, 4)]  # Dx, Dy, Dk, Da
+DIMS_T = DIMS_Q + [(1, 3, 2, 3), (2, 3, 3, 3), (3, 2, 2, 2), (1, 1, 3, 3), (3, 1, 1, 1), (2, 2, 1, 2),
+                   (2, 2, 5, 5), (1, 1, 6, 6)]
 
 
 def cells(tier, seed):
